@@ -19,3 +19,10 @@ package stackitem
 //@ ensures[reader] io.validR(r.BinReader) && r.BinReader == old(r.BinReader) && r.limit <= old(r.limit) && -1 <= r.limit && (r.limit >= 0 || r.BinReader.Err != nil)
 //@ loop 0 invariant io.validR(r.BinReader) && r.BinReader == old(r.BinReader) && r.limit <= old(r.limit) && -1 <= r.limit && (r.limit >= 0 || r.BinReader.Err != nil)
 //@ loop 1 invariant io.validR(r.BinReader) && r.BinReader == old(r.BinReader) && r.limit <= old(r.limit) && -1 <= r.limit && (r.limit >= 0 || r.BinReader.Err != nil)
+
+// Value of an interop item is what it wraps (the body of (*Interop).Value; other item kinds
+// are not constrained here).
+//@ iface Item.Value
+//@ assumed
+//@ pure
+//@ ensures is(recv, *Interop) ==> result == recv.(*Interop).value
